@@ -36,7 +36,7 @@ def run_sequence(m, task):
     for d in (1, 2):
         rng = np.random.RandomState((task["seed"] * 3 + d) % (2 ** 31))
         start = 0.0
-        stamps = np.cumsum(rng.choice([0.05, 0.1], size=24))
+        stamps = np.cumsum(rng.choice([0.05, 0.1], size=16))
         pva = filt.make_pva(m, start, rng, 0.0)
         incs = filt.make_increments(m, start, stamps, rng)
         pts = np.hstack([start, stamps])
@@ -97,7 +97,7 @@ def check(rep, pid, tier, seed):
                                                              runs=tlc.to_jsonable(r2.trace[-1][1].get("runs")) if r2.trace else None))
     if r2.ok:
         rep.vacuity.append("FilterRuns: Resets=FALSE satisfies RunsIndependent")
-    n = 24 if tier == "quick" else 600
+    n = 16 if tier == "quick" else 600
     sim = tlc.run_tlc("FilterRuns", dict(init="Init", next="Next", constants=dict(consts, MaxRuns=5)), workers=1,
                       simulate=dict(num=n, file=True), depth=8, seed=seed)
     rep.add_tlc("FilterRuns[-simulate num=%d]" % n, sim, note="behaviour generation for leg R")
